@@ -21,7 +21,9 @@ import (
 	"net/http"
 	"net/http/httptest"
 	"os"
+	"net/url"
 	"path/filepath"
+	"strings"
 	"sync"
 
 	"go4.org/jsonconfig"
@@ -286,7 +288,10 @@ func main() {
 	if err != nil {
 		fatal(fmt.Errorf("discovery: %v", err))
 	}
-	srv.rootPath = root
+	if u, err := url.Parse(root); err == nil && u.Path != "" {
+		root = u.Path
+	}
+	srv.rootPath = strings.TrimRight(root, "/")
 	clBS, err := client.New(client.OptionServer(srv.url+"/bs"), client.OptionAuthMode(auth.NewBasicAuth("u", "p")), client.OptionNoExternalConfig())
 	if err != nil {
 		fatal(err)
